@@ -19,6 +19,8 @@ mod c10;
 mod c11;
 mod c12;
 mod c13;
+mod c14;
+mod doc;
 mod c15;
 mod c16;
 mod c17;
@@ -55,6 +57,7 @@ fn props() -> Vec<Prop> {
         Prop { id: "C11", run: c11::run, replay: c11::replay, meta: c11::meta, workers: (4, 16), also_release: true },
         Prop { id: "C12", run: c12::run, replay: c12::replay, meta: c12::meta, workers: (1, 16), also_release: false },
         Prop { id: "C13", run: c13::run, replay: c13::replay, meta: c13::meta, workers: (1, 16), also_release: false },
+        Prop { id: "C14", run: c14::run, replay: c14::replay, meta: c14::meta, workers: (8, 16), also_release: false },
         Prop { id: "C15", run: c15::run, replay: c15::replay, meta: c15::meta, workers: (8, 16), also_release: false },
         Prop { id: "C16", run: c16::run, replay: c16::replay, meta: c16::meta, workers: (8, 16), also_release: false },
         Prop { id: "C17", run: c17::run, replay: c17::replay, meta: c17::meta, workers: (4, 16), also_release: false },
